@@ -51,6 +51,19 @@ def C23 : List (String × String) := [("TempPool.SuffrageExpelOperation", "f266b
   ("leveldbSuffrageExpelOperation", "6c8fbfd73bc7b251"),
   ("Storage.Iter", "24370b112fc79300")]
 
+def C24 : List (String × String) := [("TempPool.SetBallot", "94e63e2b19ba4c15"),
+  ("TempPool.Ballot", "3f45bc5e2dfbef46"),
+  ("TempPool.SetProposal", "3386c2c06f67748b"),
+  ("TempPool.Proposal", "18237b28b8929187"),
+  ("TempPool.ProposalByPoint", "c9d29ac3d87e6710"),
+  ("TempPool.cleanByHeight", "399c762ee04a787e"),
+  ("TempPool.cleanProposals", "a345a6eb8247d08e"),
+  ("TempPool.cleanBallots", "0ade15e535ed399f"),
+  ("leveldbBallotKey", "8354087d658ab77d"),
+  ("leveldbProposalPointKey", "2facaab6322eab6c"),
+  ("leveldbProposalKey", "afb13582b8a2d487"),
+  ("heightFromKey", "69be931e5c265b69")]
+
 def C29 : List (String × String) := [("EnsureRead", "a37a8396188f899f"),
   ("WriteLengthed", "02f939df4a74b2e6"),
   ("ReadLengthedBytes", "51db0448790bfa52"),
